@@ -8,6 +8,7 @@ COMMON_ASSUME = [
 CHECKS = {
     "C01": {
         "quick": 6000, "thorough": 240000,
+        "fuzz": [{"name": "FuzzC01Rapid", "seconds": 60}],
         "rule": "rapid draws field values for each of the 9 codec types (every enum member, flag octets 0..255, "
                 "boundary-biased lengths 0..255 / 0..65535, 0..255 arguments) plus an exhaustive enum/flag/length sweep; "
                 "oracle = independent RFC 8907 byte-layout model in both directions. The decode direction is done twice: into a fresh value and into a target that already holds another value (every flag and field set); both must give the same result. Non-trivial: >=2 variable fields "
@@ -17,6 +18,7 @@ CHECKS = {
     },
     "C02": {
         "quick": 3000, "thorough": 120000,
+        "fuzz": [{"name": "FuzzC02DecodeFirst", "seconds": 60}, {"name": "FuzzC02Rapid", "seconds": 45}],
         "rule": "encode-first: rapid draws a valid value of each of the 9 codec types and (3 of 4 cases) stretches one field/argument "
                 "list to a width boundary (254..257, 65534..65537, 70000, 254..300 args) or spoils it (enum out of range, non-ASCII, "
                 "priv>15, stop+watchdog); oracles: encode ok => decode(encode(v)) == v; !fits(v) by the harness' own width table => "
@@ -84,6 +86,7 @@ CHECKS = {
     },
     "C19": {
         "quick": 30000, "thorough": 1200000,
+        "fuzz": [{"name": "FuzzC19Seen", "seconds": 75}],
         "rule": "rapid draws server and client secrets (equal or distinct), packet type, minor, odd seq, flags (0/4/1/5), session and a "
                 "body: a model-encoded well-formed request under the right key, the same under a wrong key, bytes constructed so that "
                 "the server sees over-declared lengths under every layout of the type, arbitrary bytes, or a well-formed request with "
@@ -277,8 +280,9 @@ CHECKS = {
 
 # later extensions of generators and oracles (kept apart so that each addition reads as one sentence)
 RULE_ADDENDA = {
-    "C01": "Every value is also built the way callers build it - New<Type>(Set<Field>(...)...) for the header and the seven bodies - and must encode (bytes and error) exactly like the struct literal.",
-    "C02": "Over-long argument lists also come in a sparse form: 256+ arguments, each as short as the type allows.",
+    "C19": "Thorough adds native coverage-guided fuzzing (FuzzC19Seen): the bytes the server sees after removing its pad are the fuzz input, seeded with well-formed requests one or two bytes short or long; same classifier oracle.",
+    "C01": "Every value is also built the way callers build it - New<Type>(Set<Field>(...)...) for the header and the seven bodies - and must encode (bytes and error) exactly like the struct literal. Thorough adds FuzzC01Rapid: the same property with the generators' choices taken from a coverage-guided fuzzer's byte string (rapid.MakeFuzz).",
+    "C02": "Over-long argument lists also come in a sparse form: 256+ arguments, each as short as the type allows. Thorough adds native fuzzing: FuzzC02DecodeFirst (any bytes, any codec, decode-first oracle) and FuzzC02Rapid (encode-first property driven by the fuzzer through rapid.MakeFuzz).",
     "C09": "Half of the authorization sessions name one of the user's own configured services (own or through a group) as a session authorization, and are focused on the user with the most services, so that several sessions of one user ask for different services in either order.",
     "C14": "Policy requests also carry arguments that are no attribute-value pairs (no separator, only separators); every log call additionally goes through the reference logger of cmds/server/log.",
     "C03": "Client-write cases also go through Client.SendOnly and use Packet literals whose Header.Length is stale (0, 5, n+20, 65536): what is written must follow the body.",
